@@ -319,7 +319,7 @@ def load_known():
 # ----------------------------------------------------------------------------- main entry
 
 def write_replay(pid, name, payload):
-    d = os.path.join(ROOT, "replays", pid)
+    d = os.path.join(WORK, "replays-override", pid) if REPO_OVERRIDE else os.path.join(ROOT, "replays", pid)
     os.makedirs(d, exist_ok=True)
     h = hashlib.sha1(json.dumps(payload, sort_keys=True).encode()).hexdigest()[:10]
     p = os.path.join(d, f"{name}-{h}.json")
@@ -330,6 +330,9 @@ def write_replay(pid, name, payload):
 def check(pid, tier, seed, replay=None):
     t0 = time.time()
     mod = importlib.import_module(f"verifkit.props.{pid}")
+    rp = json.load(open(replay)) if replay else None
+    if rp is not None:
+        seed, tier = int(rp.get("seed", seed)), rp.get("tier", tier)
     violations = []     # (replay_path, no_input_found)
     known_lines = []
     notes = []
@@ -382,14 +385,44 @@ def check(pid, tier, seed, replay=None):
     known = [k for k in load_known() if k["property"] == pid and k["kind"] == "known"]
     total = 0; nontriv = set(); kinds = {}; samples = []; stream_stats = {}
     disagreements = 0
-    if replay:
-        streams = mod.replay_streams(json.load(open(replay)))
-    else:
-        streams = mod.streams(rng, tier)
-    for st in streams:
+    streams = mod.streams(rng, tier)
+    if rp is not None and rp.get("kind") in ("proof-obligation", "harness-build-failure"):
+        streams = []        # nothing to re-run: the theorem audit / harness build above is the replay
+    found = rp is None
+    def all_streams():
+        nonlocal found
+        yield from ((st, True) for st in streams)
+        if not found and hasattr(mod, "replay_streams"):
+            # the recorded operation depends on what the implementation answered at the time (e.g. "decode your own
+            # bytes"): fall back to the property's own replay stream built from the recorded operation
+            found = True
+            yield from ((st, False) for st in mod.replay_streams(rp))
+    for st, restrict in all_streams():
         ts = time.time()
+        if rp is not None and restrict:
+            # replay: regenerate the streams of the recorded seed/tier, run the prerequisites of generator-style
+            # stream sequences, and restrict the recorded stream to the recorded operation (same judge as the original run)
+            if st.name != rp.get("stream"):
+                if hasattr(streams, "send"):
+                    impl, model, spec = eval_stream(st)
+                    st.impl_results, st.model_results = impl, model
+                continue
+            want = rp.get("original_op") or rp.get("op")
+            idxs = [k for k, o in enumerate(st.ops) if o == want][:1]
+            if not idxs:
+                continue
+            found = True
+            sel = lambda xs: [xs[k] for k in idxs]
+            same = st.model_ops is st.ops
+            st.ops = sel(st.ops)
+            st.model_ops = st.ops if same else sel(st.model_ops)
+            if st.spec_ops is not None:
+                st.spec_ops = sel(st.spec_ops)
         impl, model, spec = eval_stream(st)
         st.impl_results, st.model_results = impl, model     # later streams may be derived from these
+        if rp is not None:
+            for o, i_, m_ in zip(st.ops, impl, model):
+                print(f"replay op:    {o}\nreplay impl:  {i_}\nreplay model: {m_}")
         n = len(st.ops)
         total += n
         bad = {}
@@ -430,7 +463,7 @@ def check(pid, tier, seed, replay=None):
                 notes.append(f"shrink failed: {e}")
             si, sm, ss = eval_stream(st, [small], [small] if st.model_ops is st.ops else [st.model_ops[idx]],
                                      [st.spec_ops[idx]] if st.spec_ops else None)
-            payload = {"property": pid, "stream": st.name, "verdict": v, "op": small, "impl": si[0], "model": sm[0],
+            payload = {"property": pid, "seed": seed, "tier": tier, "stream": st.name, "verdict": v, "op": small, "impl": si[0], "model": sm[0],
                        "spec": ss[0], "original_op": op, "count_in_stream": len(idxs),
                        "more_ops": [st.ops[j] for j in idxs[1:6]],
                        "binary": st.binary, "impl_args": list(st.impl_args),
@@ -465,6 +498,12 @@ def check(pid, tier, seed, replay=None):
         print(f"VIOLATION property={pid} replay={p}" + (" no-failing-input-found" if no_input else ""))
         rcode = 1
 
+    if rp is not None:
+        if not found:
+            print(f"replay: operation of stream {rp.get('stream')!r} was not regenerated for seed {seed} / tier {tier}; cannot replay")
+            return 2
+        log(f"[{pid}] replay of {replay}: {len(violations)} violation(s) reproduced")
+        return rcode
     cov_extra = {"result_kinds": kinds, "streams": stream_stats, "disagreements_checked": disagreements,
                  "theorems": {t: res[t][1] for t in theorems}, "notes": notes, "leanchecker_ok": leanchecker,
                  "known_findings_reproduced": sorted(seen_known)}
@@ -492,8 +531,10 @@ def write_evidence(pid, tier, seed, mod, theorems, discharged, samples, extra, t
     cov.update(extra)
     ev = {"property_id": pid, "tier": tier, "seed": seed, "level": "proof", "coverage": cov,
           "assumptions": list(getattr(mod, "ASSUMPTIONS", [])), "wall_s": round(time.time() - t0, 2), "violations": nviol}
-    os.makedirs(os.path.join(ROOT, "evidence"), exist_ok=True)
-    json.dump(ev, open(os.path.join(ROOT, "evidence", f"{pid}.json"), "w"), indent=1)
+    # experiments against another checkout (VERIF_REPO) must not overwrite the evidence of the real tree
+    edir = os.path.join(WORK, "evidence-override") if REPO_OVERRIDE else os.path.join(ROOT, "evidence")
+    os.makedirs(edir, exist_ok=True)
+    json.dump(ev, open(os.path.join(edir, f"{pid}.json"), "w"), indent=1)
 
 
 def main(argv):
